@@ -326,6 +326,23 @@ def rule_gil(fx, out):
     return n
 
 OPFILES = ('PyImathOperators.h', 'PyImathVecOperators.h', 'PyImathQuatOperators.h', 'PyImathMatrix44.cpp')
+def _b(op, a='P0', b='P1'): return 'R(B(%s,%s,%s))' % (op, a, b)
+# the repository's own naming: functor -> the one C++ operation of the element type it forwards to (structure of the body as
+# emitted by tools/pyrules: operators by opcode, parameters by position, callees by name)
+OPSHAPE = {
+    'op_add': _b('+'), 'op_sub': _b('-'), 'op_rsub': _b('-', 'P1', 'P0'), 'op_mul': _b('*'), 'op_div': _b('/'), 'op_mod': _b('%'),
+    'op_eq': _b('=='), 'op_ne': _b('!='), 'op_lt': _b('<'), 'op_gt': _b('>'), 'op_le': _b('<='), 'op_ge': _b('>='),
+    'op_neg': 'R(U(-,P0))',
+    'op_iadd': 'B(+=,P0,P1)', 'op_isub': 'B(-=,P0,P1)', 'op_imul': 'B(*=,P0,P1)', 'op_idiv': 'B(/=,P0,P1)', 'op_imod': 'B(%=,P0,P1)',
+    'op_pow': r'R\(C\((std::)?pow,P0,P1\)\)', 'op_rpow': r'R\(C\((std::)?pow,P1,P0\)\)', 'op_ipow': r'B\(=,P0,C\((std::)?pow,P0,P1\)\)',
+    'op_vecDot': 'R(M(dot,P0,P1))', 'op_vec2Cross': 'R(M(cross,P0,P1))', 'op_vec3Cross': 'R(M(cross,P0,P1))',
+    'op_vecLength': 'R(M(length,P0))', 'op_vecLength2': 'R(M(length2,P0))',
+    'op_vecNormalize': 'M(normalize,P0)', 'op_vecNormalizeExc': 'M(normalizeExc,P0)', 'op_vecNormalized': 'R(M(normalized,P0))', 'op_vecNormalizedExc': 'R(M(normalizedExc,P0))',
+    'op_quatDot': 'R(M(euclideanInnerProduct,P0,P1))', 'op_quatNormalize': 'M(normalize,P0)', 'op_quatNormalized': 'R(M(normalized,P0))',
+    'op_quatSlerp': r'R\(C\(Imath_\d+_\d+::slerpShortestArc,P0,P1,P2\)\)',
+    'op_multDirMatrix': 'M(multDirMatrix,P0,P1,P2)', 'op_multVecMatrix': 'M(multVecMatrix,P0,P1,P2)',
+}
+
 def rule_ops(fx, out):
     """the per-element functors of the operator / method families are a single forwarding expression (operator, member
     or free function of the element type): the array form then runs the very C++ function the scalar binding of the same
@@ -341,6 +358,13 @@ def rule_ops(fx, out):
         straight = len(f.blocks) <= 3 and not any('cond' in b for b in f.blocks.values())
         single = len(top) == 1 and top[0] in ('ReturnStmt', 'CompoundAssignOperator', 'BinaryOperator', 'CXXMemberCallExpr', 'CXXOperatorCallExpr', 'CallExpr', 'ExprWithCleanups')
         ok = straight and single and len(calls) <= 1
+        want = OPSHAPE.get(m.group(1))
+        if ok and want is not None:
+            got = ' ; '.join(t_.get('shape', '?') for t_ in f['top'])
+            same = (re.fullmatch(want, got) is not None) if want.startswith('R\\(') or want.startswith('B\\(') else (got == want)
+            if not same:
+                out.append(('R20.same', 'op:%s' % m.group(1), VIOLATED, 'the functor body has the structure %s; %s is the operation %s of the element type (operands in that order), which is what the scalar binding runs' % (got[:80], m.group(1), want.replace('\\', '')[:60]), f['loc']))
+                continue
         what = (calls[0]['name'].split('::')[-1] if calls else (f.events and [e['text'] for e in f.events if e['k'] == 'return'] or ['operator'])[0])
         out.append(('R20.same', 'op:%s' % m.group(1), HOLDS if ok else VIOLATED,
                     'forwards to %s' % what if ok else 'the functor body is not a single forwarding expression (%s; %d blocks, %d calls): the array form no longer runs the C++ function the scalar binding runs' % (top, len(f.blocks), len(calls)), f['loc']))
